@@ -11,9 +11,6 @@ pub fn __string_from_chars(v: Vec<char>) -> (r: String) ensures r@ == v@ { v.int
 pub fn __encode_utf8_bytes<'a>(c: char, buf: &'a mut [u8; 4]) -> (r: &'a [u8]) ensures r@ == encode_utf8(seq![c]) { c.encode_utf8(buf).as_bytes() }
 #[verifier::external_body]
 pub fn __vec_extend_slice<T: Clone>(v: &mut Vec<T>, it: &[T]) ensures final(v)@ == old(v)@ + it@ { v.extend_from_slice(it) }
-// R14 (shared with the config prelude): Vec::extend appends in order
-#[verifier::external_body]
-pub fn __vec_extend<T>(v: &mut Vec<T>, it: Vec<T>) ensures final(v)@ == old(v)@ + it@ { v.extend(it) }
 
 // u8::from_str_radix: modelled by an uninterpreted function of (text, radix); the only fact assumed about it is its
 // value on two-digit strings (validated exhaustively against the real function by the thorough tier, 2 x 256 cases)
@@ -159,3 +156,9 @@ pub fn __str_eq(a: &str, b: &str) -> (r: bool) ensures r == (a@ == b@) { a == b 
 pub fn __str_is_empty(a: &str) -> (r: bool) ensures r == (a@.len() == 0) { a.is_empty() }
 #[verifier::external_body]
 pub fn __str_ne(a: &str, b: &str) -> (r: bool) ensures r == (a@ != b@) { a != b }
+// R36: `[a, b].concat()` of two byte containers
+#[verifier::external_body]
+pub fn __vec_concat2(a: Vec<u8>, b: Vec<u8>) -> (r: Vec<u8>) ensures r@ == a@ + b@ { [a, b].concat() }
+// R19: `a == b` on byte slices compares contents
+#[verifier::external_body]
+pub fn __bytes_eq(a: &[u8], b: &[u8]) -> (r: bool) ensures r == (a@ == b@) { a == b }
